@@ -219,6 +219,12 @@ impl Assembler {
         Ok(())
     }
 
+    /// Number of buffered bytes, for the verification harness
+    #[cfg(feature = "__verif")]
+    pub(super) fn verif_buffered(&self) -> usize {
+        self.buffered
+    }
+
     /// Number of bytes consumed by the application
     pub(super) fn bytes_read(&self) -> u64 {
         self.bytes_read
